@@ -231,6 +231,9 @@ def run_C01(ctx, R):
 
 def run_C10(ctx, R):
     from .rules import bnd, parse
+    from .rules import parse as _parse
+    _per_config(ctx, R, _parse.num2)
+    _per_config(ctx, R, _parse.num3)
 
     def only_entry(units, r):
         tmp = Results(config=r.config)
@@ -378,6 +381,7 @@ def run_C04(ctx, R):
     _per_config(ctx, R, outsym.out23)
     _per_config(ctx, R, outbuf.out8)
     _per_config(ctx, R, outbuf.tab2_print)
+    _per_config(ctx, R, outbuf.prt1)
 
 
 def run_C05(ctx, R):
@@ -407,6 +411,9 @@ def run_C02(ctx, R):
     _per_config(ctx, R, parse.tab21)
     _per_config(ctx, R, _only_functions(lst.lst1, {'parse_array', 'parse_object'}, 'LST1', 2))
     _per_config(ctx, R, parse.tab1_depth_balance)
+    from .rules import parse as _parse
+    _per_config(ctx, R, _parse.num2)
+    _per_config(ctx, R, _parse.num3)
 
 
 def run_C03(ctx, R):
@@ -419,6 +426,9 @@ def run_C03(ctx, R):
     _per_config(ctx, R, parse.tab4)
     _per_config(ctx, R, parse.c03_structure)
     _per_config(ctx, R, parse.tab21)
+    from .rules import parse as _parse
+    _per_config(ctx, R, _parse.num2)
+    _per_config(ctx, R, _parse.num3)
 
 
 def run_C07(ctx, R):
@@ -447,6 +457,7 @@ PROPERTIES = {
     'C04': {
         'run': run_C04, 'modules': ['print', 'tables'],
         'explanation':
+            "PRT1: a test of the nesting depth in the printing family refuses only where the parser does (in a container printer, before the depth is incremented, with the parser's bound or a weaker one): what the parser built can be printed, whatever its depth. "
             "Writer/reader agreement and buffer independence only; numbers are NOT decided. TAB5c: every escape letter the "
             "printer can emit is decoded by the parser to the byte it stands for (parser table extracted; the printer's text per byte value computed by "
             "byte-set path exploration of its emitting loop and checked against RFC 8259). TAB5b: for every byte value 1..255 the counting pass reserves exactly what the emitting pass writes, so "
@@ -496,6 +507,7 @@ PROPERTIES = {
     'C02': {
         'run': run_C02, 'modules': ['parse', 'tables', 'utils'],
         'explanation':
+            "NUM2: parse_number advances the offset by exactly what its strtod call consumed (end pointer minus start of the converted copy), so the number token ends where the conversion stopped. NUM3: a variable that bounds the scan of the input in parse_number and is computed from the remaining input is all of it (length - offset, not one less). "
             "Necessary conditions only. TAB2: all four entry points run the same parser on the same bytes (the string variants "
             "add strlen+1), so 'all entry points produce equal trees' reduces to the length argument. TAB4: each literal is "
             "compared at exactly its length, advanced by exactly its length and stored as its own type, also through a helper whose "
@@ -518,6 +530,7 @@ PROPERTIES = {
     'C03': {
         'run': run_C03, 'modules': ['parse', 'own', 'utils', 'tables'],
         'explanation':
+            "NUM2: parse_number advances the offset by exactly what its strtod call consumed (end pointer minus start of the converted copy), so the number token ends where the conversion stopped. NUM3: a variable that bounds the scan of the input in parse_number and is computed from the remaining input is all of it (length - offset, not one less). "
             "TAB1: nesting deeper than CJSON_NESTING_LIMIT is refused before the recursive call on every cycle of the parser "
             "(stack bounded by the limit). OWN1/OWN2 over the parse family under every NULL/non-NULL outcome of every "
             "allocation: at each return no block allocated in the call is left without an owner that outlives it (rejection "
@@ -640,6 +653,7 @@ PROPERTIES = {
     'C10': {
         'run': run_C10, 'modules': ['parse'],
         'explanation':
+            "NUM2: parse_number advances the offset by exactly what its strtod call consumed (end pointer minus start of the converted copy), so the number token ends where the conversion stopped. NUM3: a variable that bounds the scan of the input in parse_number and is computed from the remaining input is all of it (length - offset, not one less). "
             "BND5: every value stored into the error position that is published on failure is the constant 0, the "
             "buffer offset at a point where a readable byte is proven, or length-1 where length>=1 is proven (dataflow "
             "state of the entry function). C10P: on the failure path *return_parse_end and the global error are both "
